@@ -35,6 +35,8 @@ def gen_case(r):
     ops = []
     for i in range(n):
         ops += [("select", i), ("timeouts", tx_to, route_to)]
+        if r.random() < 0.35:
+            ops.append(("multicast_relay=", True))    # a multicast it receives is passed on one level down
     msgs = []
     for _ in range(r.randrange(1, 4)):
         si = r.choice(senders)
@@ -74,7 +76,7 @@ def gen_case(r):
         elif mode == "next-hop-deaf":
             ops += [("select", si), ("oracle", "P" * 4000)]
         if mode == "multicast":
-            ops += [("select", si), ("multicast", m["msg"], typ, r.choice([None, 1, 2])), ("air",)]
+            ops += [("select", si), ("multicast", m["msg"], typ, r.choice([None, 0, 1, 2, 3])), ("air",)]
         else:
             ops += [("select", si), ("nwrite", {"to": dst_addr, "type": typ, "id": fid, "res": 0, "msg": m["msg"]}, 0o70), ("air",)]
         ops += [("select", si), ("oracle", "")]
